@@ -11,7 +11,9 @@ S.pop() used as a value, early exit, yield, string formatting).  (3) an order-se
 whose elements are not provably ints is reported.  int-only sets are exempt; an undecidable site is an analysis
 error, never a violation.  Companion rules: no id()/hash() in the decompiler (address-dependent), and objects
 whose __repr__ shows a set are never formatted into emitted text (debug-repr), no clock / random source
-(nondeterministic-source).
+(nondeterministic-source), and no shared mutable state that survives a decompilation is mutated: results of
+memoised functions, module-/class-level containers, mutable default arguments, module-level objects
+(process-history).
 """
 from __future__ import annotations
 
@@ -94,6 +96,7 @@ def analyse(trees):
             res.undetermined.append((r.scope, r.construct,
                                      "cannot decide `%s` in %s (elements %s): %s" % (r.expr, r.qualname, r.elem, r.reason[:200]), r.node))
     companion(pkg, cl, res)
+    history(pkg, cl, res)
     return res
 
 
@@ -186,6 +189,163 @@ def companion(pkg, cl, res):
     res.counts["format_sites"] = n_fmt
     res.tainted = sorted(tainted_all)
 
+
+
+# ---------------------------------------------------------------------------------------------
+# process-history dependence: shared mutable state that survives one decompilation
+MEMO_DECORATORS = {"lru_cache", "cache", "memoize", "memoized", "memo"}
+MUTATORS = {"append", "extend", "insert", "appendleft", "extendleft", "pop", "popitem", "remove", "clear", "sort", "reverse",
+            "add", "discard", "update", "setdefault", "difference_update", "intersection_update", "symmetric_difference_update"}
+
+
+def _memo_decorator(fn):
+    for d in getattr(fn, "decorator_list", ()):
+        e = d.func if isinstance(d, ast.Call) else d
+        name = e.id if isinstance(e, ast.Name) else (e.attr if isinstance(e, ast.Attribute) else None)
+        if name in MEMO_DECORATORS:
+            return norm_src(d)
+    return None
+
+
+def _deep_sites(pkg, t, seen=None):
+    """container sites a value of type t is or contains (tuple components, elements, dict values)"""
+    seen = set() if seen is None else seen
+    todo = [t]
+    while todo:
+        x = todo.pop()
+        for a in x:
+            if isinstance(a, tuple) and a[0] == "site":
+                if a[1] in seen:
+                    continue
+                seen.add(a[1])
+                todo.append(pkg.elem.get(a[1], BOT))
+                todo.append(pkg.val.get(a[1], BOT))
+            elif isinstance(a, tuple) and a[0] == "tup":
+                todo.extend(a[1])
+            elif isinstance(a, tuple) and a[0] == "tupv":
+                todo.append(a[1])
+    return seen
+
+
+def history(pkg, cl, res):
+    """(a) a memoised function (functools.lru_cache/cache, or a module-/class-level dict used as memo) hands the
+    *same* list/dict/set object to every caller: if anything in the package mutates that object the result of later
+    calls depends on what was decompiled before.  (b) module-/class-level containers, mutable default arguments and
+    module-level instances that are mutated from inside a function.  Exempt: containers nobody mutates (constants),
+    and keyed insertion into a module-level dict (the memo itself)."""
+    from ..unordered import _walk_no_nested, _flat_targets
+    shared = {}  # site -> (why, scope that owns it, node)
+    n_memo = 0
+    for sc in sorted(pkg.scopes.values(), key=lambda s: s.id):
+        if sc.kind != "func" or pkg.scope_of_node.get(id(sc.node)) is not sc:
+            continue
+        deco = _memo_decorator(sc.node)
+        if deco:
+            n_memo += 1
+            for sid in _deep_sites(pkg, pkg.ret_of(sc)):
+                if pkg.site_kind[sid] in ("list", "dict", "set"):
+                    shared.setdefault(sid, ("the %s returned by the memoised function %s (@%s): every caller gets the same object"
+                                            % (pkg.site_kind[sid], sc.qualname, deco), sc, sc.node))
+    n_glob = 0
+    for sid, k in sorted(pkg.site_kind.items()):
+        if k in ("list", "dict", "set") and pkg.site_scope[sid].kind == "module":
+            n_glob += 1
+            node = pkg.site_node[sid]
+            st = node
+            while st is not None and not isinstance(st, (ast.stmt, ast.arguments)):
+                st = getattr(st, "_parent", None)
+            if isinstance(st, ast.arguments):
+                why = "the mutable default argument `%s` (one object for all calls)" % norm_src(node)[:40]
+            else:
+                why = "the module-/class-level %s `%s`" % (k, norm_src(st)[:50] if st is not None else "?")
+            for s2 in _deep_sites(pkg, frozenset([("site", sid)])):
+                if pkg.site_kind[s2] in ("list", "dict", "set"):
+                    shared.setdefault(s2, (why if s2 == sid else "a %s stored in %s" % (pkg.site_kind[s2], why), pkg.site_scope[sid], node))
+    res.counts["memoised_functions"] = n_memo
+    res.counts["global_containers"] = n_glob
+    # ---- who mutates a shared object? ---------------------------------------------------
+    muts = {}
+    module_names = {}
+    for sc in sorted(pkg.scopes.values(), key=lambda s: s.id):
+        if sc.kind == "module" or pkg.scope_of_node.get(id(sc.node)) is not sc:
+            continue
+        body = list(sc.node.body) if sc.kind == "func" else [sc.node.body]
+        for n in _walk_no_nested(body):
+            hits = []
+            if isinstance(n, ast.Call) and isinstance(n.func, ast.Attribute) and n.func.attr in MUTATORS:
+                t = pkg.ev(n.func.value, sc)
+                kind = "memo-insert" if n.func.attr == "setdefault" else n.func.attr
+                hits = [(x, kind) for x in pkg.sites(t)]
+            elif isinstance(n, (ast.Assign, ast.AugAssign, ast.Delete)):
+                tg = n.targets if isinstance(n, (ast.Assign, ast.Delete)) else [n.target]
+                for t0 in tg:
+                    for ft in _flat_targets(t0):
+                        if isinstance(ft, ast.Subscript):
+                            for x in pkg.sites(pkg.ev(ft.value, sc)):
+                                ins = isinstance(n, ast.Assign) and pkg.site_kind[x] == "dict"
+                                hits.append((x, "memo-insert" if ins else "item assignment/deletion"))
+                        elif isinstance(n, ast.AugAssign) and isinstance(ft, (ast.Name, ast.Attribute)):
+                            for x in pkg.sites(pkg.ev(Pkg._as_load(ft), sc)):
+                                hits.append((x, "augmented assignment"))
+            for x, kind in hits:
+                if x in shared and pkg.site_scope[x] is not sc:
+                    muts.setdefault(x, []).append((sc, n, kind))
+    done = set()
+    for sid in sorted(shared):
+        why, owner, onode = shared[sid]
+        ms = muts.get(sid, [])
+        real = [m for m in ms if m[2] != "memo-insert"]
+        inst = "%s | %s" % (owner.qualname, why[:90])
+        if not real:
+            res.obligations.append(("process-history", inst, True,
+                                    "never mutated inside a function" + (" except keyed insertion (memo)" if ms else "")))
+            continue
+        res.obligations.append(("process-history", inst, False, ""))
+        who = "; ".join(dict.fromkeys("%s in %s" % (norm_src(n)[:50], sc.qualname) for sc, n, k in real[:3]))
+        if owner.kind == "func":
+            key_sc, construct = owner, "def %s(%s)" % (owner.node.name, ", ".join(owner.params))
+        else:
+            # a function that hands the shared object out (hand-written memo), else the first mutator
+            givers = [g for g in sorted(pkg.scopes.values(), key=lambda s: s.id)
+                      if g.kind == "func" and pkg.scope_of_node.get(id(g.node)) is g
+                      and ("site", sid) in pkg.ret_of(g) and all(g is not m[0] for m in real)]
+            if givers and why.startswith("a "):
+                key_sc, construct = givers[0], "def %s(%s)" % (givers[0].node.name, ", ".join(givers[0].params))
+                why = why + ", handed out by %s()" % givers[0].qualname
+                onode = givers[0].node
+                owner = givers[0]
+            else:
+                key_sc, construct = real[0][0], real[0][1]
+        if (key_sc.qualname, norm(construct)) in done:
+            continue
+        done.add((key_sc.qualname, norm(construct)))
+        res.findings.append(("process-history", key_sc, construct,
+                             "%s is mutated (%s): what a later decompilation sees depends on what was decompiled earlier in the process" % (why, who),
+                             onode if owner.kind == "func" else real[0][1], dict(shared=why, mutated_by=who)))
+    # ---- module-level instances / rebinding of globals from inside functions ----------------
+    for sc in sorted(pkg.scopes.values(), key=lambda s: s.id):
+        if sc.kind != "func" or pkg.scope_of_node.get(id(sc.node)) is not sc:
+            continue
+        ms = pkg._module_scope[sc.relpath]
+        for n in _walk_no_nested(list(sc.node.body)):
+            tgt = None
+            if isinstance(n, (ast.Assign, ast.AugAssign)):
+                for t0 in (n.targets if isinstance(n, ast.Assign) else [n.target]):
+                    for ft in _flat_targets(t0):
+                        b = ft
+                        while isinstance(b, (ast.Attribute, ast.Subscript)):
+                            b = b.value
+                        if isinstance(b, ast.Name) and pkg.owner_scope(b.id, sc) is ms and b.id in ms.bound:
+                            t = pkg.lookup(b.id, sc)
+                            if ft is b:
+                                if b.id in sc.declared_free:
+                                    tgt = (b.id, "rebinds the module-level name")
+                            elif isinstance(ft, ast.Attribute) and any(isinstance(a, tuple) and a[0] in ("obj", "cls") for a in t):
+                                tgt = (b.id, "sets an attribute of the module-level object")
+            if tgt:
+                res.obligations.append(("process-history", "%s | %s" % (sc.qualname, norm_src(n)[:80]), False, ""))
+                res.findings.append(("process-history", sc, n,
+                                     "%s `%s` from inside a function: state survives from one decompilation to the next" % (tgt[1], tgt[0]), n, None))
 
 # ---------------------------------------------------------------------------------------------
 # frozen design-time classification (DESIGN.md Appendix D).  A row is matched by role: function, a name that
@@ -288,6 +448,10 @@ def fixture_check():
             n_pos += 1
             if "nondeterministic-source" not in fired.get(name, ()):
                 problems.append("%s: expected a nondeterministic-source finding" % name)
+        elif name.startswith("hist_"):
+            n_pos += 1
+            if "process-history" not in fired.get(name, ()):
+                problems.append("%s: expected a process-history finding" % name)
         elif name.startswith("addr_"):
             n_pos += 1
             if "address-dependent" not in fired.get(name, ()):
@@ -341,6 +505,7 @@ def run(ctx):
     ctx.floor("nondet_consumptions", 40)
     ctx.floor("iterations", 10)
     ctx.floor("format_sites", 40)
+    ctx.floor("global_containers", 5)
     pos, neg = fixture_check()
     ctx.ob("fixture", "fixtures/C22/unordered_fixture.py", True, "%d positive examples fire, %d negative examples are silent" % (pos, neg))
     ctx.extra["classification"] = [r.as_dict() for r in res.recs if r.verdict != FLOWS and r.kind not in ("int", "empty")]
@@ -535,7 +700,16 @@ def m_declare_set(trees):
     return None
 
 
-MUTANTS = [m_compute_end_raw, m_merge_key_id, m_used_vars_set, m_declare_set, m_fold_to_last_writer, m_meet_to_last, m_own_to_other, m_list_to_set, m_adjacency_sets, m_update_to_append, m_key_id, m_pop_first]
+def m_lru_cache_list(trees):
+    """util.get_access_method gets @lru_cache: one shared list per flag word (dast removes 'constructor' from it)"""
+    f = _func(trees[PKG_DIR + "util.py"], "get_access_method")
+    if f is None:
+        return None
+    f.decorator_list.append(ast.parse("lru_cache(maxsize=None)", mode="eval").body)
+    return "get_access_method"
+
+
+MUTANTS = [m_lru_cache_list, m_compute_end_raw, m_merge_key_id, m_used_vars_set, m_declare_set, m_fold_to_last_writer, m_meet_to_last, m_own_to_other, m_list_to_set, m_adjacency_sets, m_update_to_append, m_key_id, m_pop_first]
 
 
 def b_rename_local(trees):
@@ -600,7 +774,16 @@ def b_tuple_key(trees):
     return None
 
 
-BENIGN = [b_tuple_key, b_rename_local, b_sorted_fix, b_reorder, b_len_list, b_copy_as_list]
+def b_lru_cache_scalar(trees):
+    """util.get_type_size (returns an int) gets @lru_cache"""
+    f = _func(trees[PKG_DIR + "util.py"], "get_type_size")
+    if f is None:
+        return None
+    f.decorator_list.append(ast.parse("lru_cache(maxsize=None)", mode="eval").body)
+    return "get_type_size"
+
+
+BENIGN = [b_lru_cache_scalar, b_tuple_key, b_rename_local, b_sorted_fix, b_reorder, b_len_list, b_copy_as_list]
 
 
 def _mutated(ctx, edit):
